@@ -208,12 +208,12 @@ let () = iter_lines (fun line ->
              let inp = img @ tail in
              let fuel = nat_of_int (List.length inp + 8) in
              Printf.printf "wire w:ok %d %s r:%s\n" (List.length img) (md5 b)
-               (show_read (run_flat (wchunk_read fuel gs gb dst) inp)))
+               (show_read (run_fast (wchunk_read fuel gs gb dst) inp)))
     | "read" ->
         let gs = next_z c in let gb = next_z c in let inp = bytes_of_hex (next c) in
         let dst = p_chunk c in
         let fuel = nat_of_int (List.length inp + 8) in
-        Printf.printf "read %s\n" (show_read (run_flat (wchunk_read fuel gs gb dst) inp))
+        Printf.printf "read %s\n" (show_read (run_fast (wchunk_read fuel gs gb dst) inp))
     | "tosave" ->
         let dst = p_schunk c in let src = p_chunk c in
         (match to_save st_name bio_name src dst with
